@@ -65,7 +65,8 @@ def run_ipm_tool(tool, data, a, b, fa, fb, scratch):
     if tool == 'mci_ipm_encode-cli':
         dst = os.path.join(scratch, 'out.ipm')
         with quiet():
-            mci_ipm_encode.cli_run(in_filename=src, out_filename=dst, in_encoding=a, out_encoding=b, in_format=fa, out_format=fb)
+            argv = [src, '-o', dst, '--in-encoding', a, '--out-encoding', b, '--in-format', fa, '--out-format', fb]
+            mci_ipm_encode.cli_run(**vars(mci_ipm_encode.cli_parser().parse_args(argv)))   # what cli_entry does with sys.argv
     else:  # mideu convert
         args = ['convert', src, '-s', 'ebcdic' if a == 'cp500' else 'ascii']
         if fa == 'vbs':
@@ -117,7 +118,8 @@ def run_param_tool(tool, data, a, b, fa, fb, scratch):
         f.write(data)
     if tool == 'mci_ipm_param_encode-cli':
         with quiet():
-            mci_ipm_param_encode.cli_run(in_filename=src, out_filename=dst, in_encoding=a, out_encoding=b, in_format=fa, out_format=fb)
+            argv = [src, '-o', dst, '--in-encoding', a, '--out-encoding', b, '--in-format', fa, '--out-format', fb]
+            mci_ipm_param_encode.cli_run(**vars(mci_ipm_param_encode.cli_parser().parse_args(argv)))
     else:  # paramconv
         args = [src, '-o', dst, '-s', 'ebcdic' if a == 'cp500' else 'ascii']
         if fa == 'vbs':
